@@ -6,8 +6,9 @@
        all functions, `_current_cache` returns tg.cache); outside, the pipeline's own LRU cache is used for
        functions with cache=True (it exists iff some function has cache=True; lazy => shared=False, so the cached
        objects are the _LazyFunction nodes themselves);
-     * compute_cache_key(func.output_name, _func_defaults(func) | kwargs | func._bound, root_args(output_name)):
-       None as soon as a root argument of the requested name has no value in that dict;
+     * compute_cache_key(func.output_name, _func_defaults(func) | kwargs, root_args(output_name)): None as soon as
+       a root argument of the requested name has no value in that dict, and None whenever a keyword supplies an
+       intermediate result (the code of /repo main after the C09 fixes 56230d4, b271be1);
      * get_result_from_cache: on a hit `_update_all_results(func, r, output_name, all_results, lazy)` (new picker
        nodes for a tuple output), `used_parameters.add(None)` and immediate return unless full_output (then the
        arguments are still resolved and the cached result is returned afterwards);
@@ -40,18 +41,14 @@ Section Seq.
     Variable kw : alist.
     Variable full : bool.
 
-    (* (self._func_defaults(func) | flat_scope_kwargs | func._bound).get(k) *)
+    (* (self._func_defaults(func) | flat_scope_kwargs).get(k)   -- func._bound does not enter the key *)
     Definition key_lookup (f : pfunc) (k : str) : option str :=
-      match aget (bound f) k with
-      | Some b => Some b
+      match aget kw k with
+      | Some v => Some v
       | None =>
-          match aget kw k with
-          | Some v => Some v
-          | None =>
-              match aget (dflt f) k with
-              | Some d => Some d
-              | None => if mem_str k (pnames f) then pdefault p k else None
-              end
+          match aget (dflt f) k with
+          | Some d => Some d
+          | None => if mem_str k (pnames f) then pdefault p k else None
           end
       end.
     Fixpoint key_items (f : pfunc) (ra : list str) : option alist :=
@@ -62,8 +59,10 @@ Section Seq.
                   | _, _ => None
                   end
       end.
+    (* no key when a keyword supplies an intermediate result (it replaces its producer) *)
     Definition cache_key (f : pfunc) (ra : list str) : option ckey :=
-      option_map (fun l => (outs f, l)) (key_items f ra).
+      if existsb (is_output p) (akeys kw) then None
+      else option_map (fun l => (outs f, l)) (key_items f ra).
 
     Definition cresolve (rec : cstate -> str -> cstate * result larg) (f : pfunc) (st : cstate) (cur : str)
       : cstate * result larg :=
